@@ -88,7 +88,7 @@ def retarget(ctx):
                         break
     if op[0] == "target" and ctx.exc is None and op[2] in ctx.pre.channels and ctx.pre.channels[op[2]].slots:
         pre_ch, post_ch = ctx.pre.channels[op[2]], ctx.post.channels[op[2]]
-        want = tuple(sorted([op[1]] if isinstance(op[1], str) else list(op[1])))
+        want = tuple(sorted(list(op[1]) if isinstance(op[1], (list, tuple, set)) else [op[1]], key=str))
         if want == pre_ch.slots[-1].targets:
             ctx.act["same_target_calls"] += 1
             if any(s.kind == "pulse" and s.tf + s.fall_cur > pre_ch.end for s in pre_ch.slots[-1:]):
@@ -115,6 +115,20 @@ def catalog():
     return out
 
 
+def slice_of(i: int) -> int:
+    """Twelfth of the catalog a configuration belongs to.  Digits of i in the product order are (pjt, bw, clock, min_dur,
+    retarget, fixed); a slice takes (pjt + bw) % 3 and ((clock, min_dur) + (retarget, fixed)) % 4 constant, so every slice
+    of 12 contains every value of every parameter and all four (retarget, fixed) combinations (a plain i % 12 would
+    keep the two fastest-varying parameters fixed)."""
+    f = i % 2
+    e = (i // 2) % 2
+    d = (i // 4) % 2
+    c = (i // 8) % 2
+    b = (i // 16) % 3
+    a = (i // 48) % 3
+    return ((a + b) % 3) * 4 + ((c * 2 + d) + (e * 2 + f)) % 4
+
+
 def plan(tier, seed):
     cat = catalog()
     rt = A.retarget()
@@ -122,12 +136,14 @@ def plan(tier, seed):
         (corner("real", prefix=A.GL, retarget=220, fixed_rt=0), rt, 3),
         (corner("awk", prefix=A.GL), rt, 3),
         (corner("unit8", prefix=A.GL, retarget=220, fixed_rt=30, pjt=0), rt, 3),
+        (corner("real", prefix=A.GL, retarget=100, fixed_rt=200, name="real-fixed-longer-than-interval"), rt, 3),
+        (corner("unit8", prefix=A.GL, name="unit8-fall-tail"), A.fall_tail(rise=60), 4 if tier == "quick" else 3),
         (corner("awk", prefix=[("declare", "g", "rydberg_global")], name="awk-eom"), A.eom_phase(), 4),
         (corner("real", prefix=[("declare", "g", "rydberg_global")], name="real-eom", eom=dict(mod_bandwidth=20)), A.eom_phase(), 4),
     ]
     if tier == "quick":
         k = seed % 12
-        worlds += [(dict(c, prefix=A.GL), rt, 3) for i, c in enumerate(cat) if i % 12 == k]
+        worlds += [(dict(c, prefix=A.GL), rt, 3) for i, c in enumerate(cat) if slice_of(i) == k]
     else:
         worlds = [(w, a, d + 1) for w, a, d in worlds]
         worlds += [(dict(c, prefix=A.GL), rt, 4) for c in cat]
@@ -138,7 +154,7 @@ def run(tier, seed):
     res = Result("model_checking")
     cov = seqx.run_plan(res, plan(tier, seed), MONITORS)
     cov["traces_validated_against_impl"] = res.activations.get("refsched_compared", 0)
-    cov["slice"] = f"catalog configurations i with i % 12 == {seed % 12}" if tier == "quick" else "all 144 catalog configurations"
+    cov["slice"] = f"catalog slice {seed % 12} of 12 (every slice holds every value of every parameter, see slice_of)" if tier == "quick" else "all 144 catalog configurations"
     cov["rule"] = ("BFS over all call histories up to the stated depth per configuration; configurations = corners + catalog "
                    "product {pjt None/0/42} x {bw None/8/30} x {clock 1/4} x {min_dur 1/16} x {retarget 0/220} x {fixed 0/30}")
     res.coverage = cov
